@@ -20,8 +20,8 @@ def make_case(g, ops, fam, flags=1):
 
     def verdicts():
         sp = A.Spec(g, A.Sim(g, dict(sim.st)))
-        return [(sp.readable(i), sp.writable(i), sp.evaluable(i), sp.base_outcome(i, False), sp.base_outcome(i, True))
-                for i in range(n)]
+        return [(sp.readable(i), sp.writable(i), sp.evaluable(i), sp.base_outcome(i, False), sp.base_outcome(i, True),
+                 sp.answer(i, False), sp.answer(i, True)) for i in range(n)]
 
     opcodes = []
     try:
@@ -91,6 +91,11 @@ def predicate(c, ver):
                 what = "is_writable" if q else "is_readable"
                 if got == 2:
                     return "%s(N%d) panicked after step %d" % (what, i, si)
+                if got != spec[i][5 + q] and got != 2:
+                    return ("after step %d: %s(N%d: %s) = %d; asking its conditions in order (implemented, available, "
+                            "%simposed mode, then every value %s in order: first failure wins) gives %d"
+                            % (si, what, i, g[i]["kind"], got, "not locked, " if q else "",
+                               "target incl. every pValueCopy" if q else "source", spec[i][5 + q]))
                 base = spec[i][3 + q]
                 has_query = g[i]["kind"] not in (("Command", "Register") if q == 0 else
                                                  ("Register", "IntSwissKnife", "SwissKnife"))
@@ -227,6 +232,51 @@ def gen_minimal(ck, rng, cases):
                          dict(avail=2, lock=bad), dict(impl=bad, avail=other), dict(avail=bad, lock=other),
                          dict(impl=other, lock=bad), dict(impl=2, avail=2, lock=bad)):
                 g.append(feature(kind, g, tb=0, access="RW", **refs))
+            add(cases, g, [("s", 2, 0), ("s", 2, 1), ("s", 2, 2)], "failing controls")
+    # ... and the same failing controls on the nodes a value is written to / drawn from: the pValue target, every
+    # position of the pValueCopy list (first / middle / last), the pIndex node and its indexed entries, the pValue
+    # and the variables of converters and swiss knives (every position), the pValue of Boolean / Command /
+    # Enumeration / String.  The failing control sits on the target's pIsLocked (only is_writable fails) or on its
+    # pIsAvailable / pIsImplemented (both fail); the answer of the referrer must be that failure unless an earlier
+    # condition already said no.
+    for j in range(6):
+        for ref in ("lock", "avail", "impl"):
+            g = [A.node("IntReg", access="RW", init=5), A.node("Integer", value=("slot", 1)),
+                 A.node("Integer", value=("slot", 1))]
+            g += failing(j)
+            bad = len(g) - 1 if failing(j) else 50
+            ok1, ok2 = len(g), len(g) + 1
+            g += [A.node("IntReg", access="RW", init=1), A.node("Integer", value=("slot", 2))]
+            tb = len(g)                                   # targets whose control fails
+            g += [A.node("IntReg", access="RW", init=1, **{ref: bad}), A.node("Integer", value=("slot", 1), **{ref: bad}),
+                  A.node("Float", value=("slot", 1), **{ref: bad}), A.node("Enumeration", value=("slot", 0), **{ref: bad}),
+                  A.node("StringReg", access="RW", **{ref: bad}), A.node("Boolean", value=("slot", 1), **{ref: bad})]
+            treg, tint, tflt, tenum, tstr, tbool = range(tb, tb + 6)
+            for T in (treg, tint, tflt, tenum):
+                g.append(A.node("Integer", value=("pvalue", T, [ok1, ok2])))
+                g.append(A.node("Integer", value=("pvalue", ok1, [T, ok2, ok1])))
+                g.append(A.node("Float", value=("pvalue", ok2, [ok1, T, ok2])))
+                g.append(A.node("Integer", value=("pvalue", ok1, [ok2, ok1, T])))
+                g.append(A.node("Integer", value=("pvalue", ok1, [T])))
+            g.append(A.node("Integer", value=("pvalue", ok1, [treg, tint])))          # two failing copies in a row
+            g.append(A.node("Integer", value=("pvalue", 1, [ok1, tflt], ), imposed="RO"))   # an earlier "no" hides it
+            g.append(A.node("Integer", value=("pindex", tint, [(1, ("node", ok1))], ("slot", 3))))     # failing index
+            g.append(A.node("Integer", value=("pindex", treg, [(1, ("slot", 4))], ("node", ok2))))
+            g.append(A.node("Integer", value=("pindex", 2, [(0, ("node", treg)), (1, ("node", ok1))], ("node", tint))))
+            g.append(A.node("Float", value=("pindex", 2, [(1, ("node", tflt))], ("slot", 3))))
+            for kind in ("IntConverter", "Converter"):
+                g.append(A.node(kind, pvalue=tint, vars=[ok1]))
+                g.append(A.node(kind, pvalue=ok1, vars=[treg, ok1, ok2], accs=["", ".Max", ""]))
+                g.append(A.node(kind, pvalue=ok2, vars=[ok1, tflt, ok2]))
+                g.append(A.node(kind, pvalue=ok1, vars=[ok1, ok2, tbool], accs=[".Min", "", ".Value"]))
+            for kind in ("IntSwissKnife", "SwissKnife"):
+                g.append(A.node(kind, vars=[tenum, ok1, ok2]))
+                g.append(A.node(kind, vars=[ok1, tint, ok2], accs=["", ".Inc", ""]))
+                g.append(A.node(kind, vars=[ok1, ok2, treg]))
+            g.append(A.node("Boolean", value=("node", tint)))
+            g.append(A.node("Command", value=("node", treg)))
+            g.append(A.node("Enumeration", value=("node", tint)))
+            g.append(A.node("String", value=("node", tstr)))
             add(cases, g, [("s", 2, 0), ("s", 2, 1), ("s", 2, 2)], "failing controls")
     # one unreadable / unwritable source under each referrer
     for src in (A.node("IntReg", access="WO"), A.node("IntReg", access="RO"), A.node("Integer", value=("slot", 1), imposed="RO"),
